@@ -56,13 +56,16 @@ type typesMap struct {
 	dedup      bool
 }
 
-func newTypesMap(qual types.Qualifier, prefix string, reserved map[string]struct{}, autoname bool, dedup bool) TypesMap {
+// newTypesMap returns an empty map for the functions of one plugin in one package.
+// The table of renamed calls is shared by the passes over the package: a call that was renamed in an earlier pass
+// is written with its new name by now, and a repeat of it that is typed only in this pass is still that call again.
+func newTypesMap(qual types.Qualifier, prefix string, reserved map[string]struct{}, autonamed map[string]string, autoname bool, dedup bool) TypesMap {
 	return &typesMap{
 		qual:       qual,
 		prefix:     prefix,
 		generated:  make(map[string]bool),
 		funcToTyps: make(map[string][]types.Type),
-		autonamed:  make(map[string]string),
+		autonamed:  autonamed,
 		typss:      nil,
 		reserved:   reserved,
 		autoname:   autoname,
